@@ -91,6 +91,20 @@ Definition decode (c : sx) : option (state * Z * Z * sx) :=
   | _ => None
   end.
 
+(* CODE.RAND is bounded by the configured limit, whatever its INTEGER operand (C12_code_rand_bound) *)
+Definition code_rand_within_limit (s s' : state) : bool :=
+  match top_instr s with
+  | Some n =>
+      if name_in n ["CODE.RAND"%string] then
+        match st_code s' with
+        | t :: _ => if Nat.ltb (length (st_code s)) (length (st_code s'))
+                    then size t <=? Z.abs (cfg_max_points_rand (st_cfg s)) else true
+        | [] => true
+        end
+      else true
+  | None => true
+  end.
+
 Definition pm_cost_check (c : sx) : sx :=
   match decode c with
   | None => sx_bad
@@ -99,7 +113,8 @@ Definition pm_cost_check (c : sx) : sx :=
       | None => SZ 0                                   (* panicked, aborted, killed, timed out *)
       | Some s' =>
           if is_single_step mode arg then
-            if weight s' <=? 2 * weight s + 64 then SZ 1
+            if negb (code_rand_within_limit s s') then SZ 0      (* CODE.RAND pushed more points than max-points-in-random-expressions *)
+            else if weight s' <=? 2 * weight s + 64 then SZ 1
             else match top_instr s with
                  | Some n => if name_in n unquantified_names then SZ 2 else SZ 0
                  | None => SZ 0
@@ -117,7 +132,8 @@ Definition pm_cost_known (c : sx) : sx :=
       | None => SZ 0
       | Some s' =>
           if is_single_step mode arg then
-            (if weight s' <=? 2 * weight s + 64 then SZ 0 else SZ (step_class s))
+            (if negb (code_rand_within_limit s s') then SZ 0
+             else if weight s' <=? 2 * weight s + 64 then SZ 0 else SZ (step_class s))
           else if cfg_max_points_prog (st_cfg s) <? max_item_size s' then SZ 7
           else if (budget s mode arg <? weight s') &&
                   (wsum vw (st_name s) + steps_taken s mode arg * Z.max 0 (cfg_growth_cap (st_cfg s)) <? wsum vw (st_name s'))
